@@ -150,7 +150,6 @@ impl ConfigState {
             // operators must mirror the change in the TOML to make it
             // sticky).
             RequestType::Logging(_)
-            | RequestType::CountRequests(_)
             | RequestType::Status(_)
             | RequestType::SoftStop(_)
             | RequestType::QueryCertificatesFromWorkers(_)
